@@ -33,7 +33,8 @@ SHRINK_LISTS = ['lives']
 
 NSS = ['/', '/a', '/b']
 ENDS = ['cdisc_close', 'sever', 'sdisc_sever', 'eio_close', 'sever_halfopen',
-        'close', 'sever', 'ping_timeout']
+        'close', 'sever', 'ping_timeout', 'sdisc_ping_expired',
+        'emit_ping_expired']
 STEPS = ['room', 'room', 'event', 'event', 'event_unhandled', 'garbage',
          'partial_binary', 'emit_cb', 'emit_cb', 'leave', 'reconnect_ns',
          'cdisc', 'ack_partial', 'full_binary']
@@ -314,6 +315,32 @@ def _run(case, cfg, w, kw):
             pe.close()
         elif end == 'close':
             pe.close()
+        elif end in ('sdisc_ping_expired', 'emit_ping_expired'):
+            # the client is silently gone (half-open); the application kicks
+            # it (or emits to it) after its ping has expired but before the
+            # reader gave up: engine.io notices inside that very send and
+            # tears the connection down re-entrantly
+            pe.auto_pong = False       # silent from now on
+            faults['half_open'] += 1
+            pings0 = pe.pings
+            w.settle()
+            for _ in range(12):
+                if pe.pings > pings0:
+                    break
+                w.advance(1.0)
+            w.advance(3.5)
+            w.rec.count('fault.clock_jump')
+            mine = [(ns, sid) for (pp, ns), sid in sc.live_sids() if pp == p]
+            if mine:
+                ns0, sid0 = mine[0]
+                if end == 'sdisc_ping_expired':
+                    w.api('s', 'disconnect', sid0, namespace=ns0)
+                else:
+                    w.api('s', 'emit', 'x', 1, to=sid0, namespace=ns0)
+                faults['ping_timeout'] += 1
+            w.settle()
+            pe.sever(0.0)
+            w.advance(40.0)
         elif end in ('sever_halfopen', 'ping_timeout'):
             # the server is never told: only its ping timeout ends it
             pe.auto_pong = False
